@@ -55,7 +55,7 @@ template <class S> struct Layout<manif::SGal3<S> > {
   static void fill(LayoutAcc& a, int r, int d) { a.add_unit(r + 3, 4); a.add_ang(d + 6, 3); }
   // SGal3Tangent<float>::smallAdj() does not compile on the pinned tree (DESIGN section 6)
   static unsigned caps() {
-    return CAP_NORMALIZE | CAP_ROTATION | CAP_ASSO3 | (std::is_same<S, double>::value ? CAP_SMALLADJ : 0u);
+    return CAP_NORMALIZE | CAP_ROTATION | CAP_ASSO3 | CAP_CROSS | (std::is_same<S, double>::value ? CAP_SMALLADJ : 0u);
   }
 };
 template <class S, unsigned int N> struct Layout<manif::Rn<S, N> > {
@@ -72,11 +72,15 @@ template <class B, int I, int N> struct BundleFill {
   }
 };
 template <class B, int N> struct BundleFill<B, N, N> { static void run(LayoutAcc&, int, int) {} };
+template <class B, int I, int N> struct BundleCaps {
+  static unsigned run() { return (Layout<typename B::template Element<I> >::caps() & CAP_CROSS) | BundleCaps<B, I + 1, N>::run(); }
+};
+template <class B, int N> struct BundleCaps<B, N, N> { static unsigned run() { return 0; } };
 
 template <class S, template <typename> class... T> struct Layout<manif::Bundle<S, T...> > {
   typedef manif::Bundle<S, T...> B;
   static void fill(LayoutAcc& a, int r, int d) { BundleFill<B, 0, (int)sizeof...(T)>::run(a, r, d); }
-  static unsigned caps() { return CAP_BUNDLE | CAP_SMALLADJ; }
+  static unsigned caps() { return CAP_BUNDLE | CAP_SMALLADJ | BundleCaps<B, 0, (int)sizeof...(T)>::run(); }
 };
 
 template <class S> struct OtherScalar;
@@ -473,7 +477,7 @@ template <class G> struct Exec {
       case OP_M_ASSIGN: a = b; put_e(out, a); break;
       case OP_M_MULEQ: a *= b; put_e(out, a); break;
       case OP_M_ASSIGN_EIGEN: a = b.coeffs(); put_e(out, a); break;
-      case OP_M_MOVE_ASSIGN: { G tmp(b); a = std::move(tmp); put_e(out, a); } break;
+      case OP_M_MOVE_ASSIGN: move_assign(a, b, op); put_e(out, a); break;
       case OP_M_COEFFWRITE:
         for (int i = 0; i < Rep; ++i) {
           const S v = b.coeffs()(i);
@@ -486,6 +490,14 @@ template <class G> struct Exec {
       default: out.status = 9;
     }
   }
+  // X = std::move(Y): from an owning temporary, or (V_ALT) from a second mutable view of Y's storage.
+  // (moving from a Map<const ...> does not compile on the pinned tree.)
+  template <class A> static void move_assign(A& a, const G& b, const OpRec&) { G tmp(b); a = std::move(tmp); }
+  template <class A> static void move_assign(A& a, const MG& b, const OpRec& op) {
+    if (op.variant & V_ALT) { MG src(const_cast<S*>(b.data())); a = std::move(src); }
+    else { G tmp(b); a = std::move(tmp); }
+  }
+  template <class A> static void move_assign(A& a, const CG& b, const OpRec&) { G tmp(b); a = std::move(tmp); }
   template <class A> static void mut_e(St& st, A& a, const OpRec& op, Out& out) {
     switch (op.op) {
       case OP_M_SETIDENTITY: a.setIdentity(); put_e(out, a); break;
